@@ -52,6 +52,8 @@ def _order_job(args: Tuple[int, int, int, str]) -> List[Case]:
     rng = random.Random((seed * 1000003 + i) * 7 + 1)
     # every 7th tree: a defect that must be reported the same way under every listing order / RNG state
     prof = {3: "title-with-scaled-value", 5: "multiple-readme-same-name", 1: "empty-recipe-block"}.get(i % 7, "valid")
+    if prof == "valid" and i % 7 in (2, 6):
+        size = size + ":st"       # sibling directories with EQUAL titles whose names differ only after the last dot
     site = G.gen_site(rng, prof, size)
     out: List[Case] = []
     ref = None
@@ -84,6 +86,35 @@ def _defect_hist_job(args: Tuple[int, int]) -> Case:
     return SC.make_history_case(site, steps, seed * 100000 + i)
 
 
+def _alone_then_site_job(args: Tuple[int, int]) -> Case:
+    """site (a recipe without H1: RecipeMissingTitleError) -> stand-alone page of that very file (allowed: title
+    'Recipe') -> the site again: must fail exactly as before / as in a fresh process"""
+    seed, i = args
+    rng = random.Random((seed * 1000003 + i) * 7 + 14)
+    site = G.gen_site(rng, "valid", "small")
+    if site["M"] < 2:
+        site["M"] = 2
+    src = [c_ for c_ in site["base"]["ch"] if c_["name"] == "src"][0]
+    dirs = [((), src)] + [(p, n) for p, n in G.walk(src) if n["k"] == "d"]
+    dp, dn = rng.choice(dirs)
+    text = rng.choice(["No heading here {2}\n\n    2 eggs\n", "## Only level two\n\nText\n", "Just prose.\n",
+                       "Intro\n\n## Later heading\n\n    1 egg\n"])
+    dn["ch"] = [c_ for c_ in dn["ch"] if c_["name"] != "untitled.md"] + [G.F("untitled.md", text=text)]
+    if rng.random() < 0.5:
+        # the stand-alone page is made from ANOTHER file with exactly the same text
+        src["ch"] = [c_ for c_ in src["ch"] if c_["name"] != "copy of it.md"] + [G.F("copy of it.md", text=text)]
+        afile = ["src", "copy of it.md"]
+    else:
+        afile = ["src"] + list(dp) + ["untitled.md"]
+    site["profile"], site["fault"] = "recipe-missing-title", "recipe-missing-title"
+    g = {"op": "gen", "M": site["M"], "order": rng.randrange(10 ** 6), "rng": rng.randrange(10 ** 6)}
+    alone = {"op": "alone", "file": afile, "scale": rng.choice([None, "2"]), "servings": None, "embed": False, "rng": 5}
+    steps = [dict(g), alone, dict(g, rng=rng.randrange(10 ** 6))]
+    if rng.random() < 0.4:
+        steps = steps[1:]          # the stand-alone page first, then the site
+    return SC.make_history_case(site, steps, seed * 100000 + i)
+
+
 def _hist_job(args: Tuple[int, int]) -> Case:
     seed, i = args
     rng = random.Random((seed * 1000003 + i) * 7 + 2)
@@ -107,6 +138,7 @@ def suites(tier: str, seed: int) -> List[Suite]:
     # the histories run in the long-lived worker processes (their caches are warm from the jobs before)
     hist.cases = SC.pmap(_hist_job, [(seed, i) for i in range(n_hist)])
     hist.cases += SC.pmap(_defect_hist_job, [(seed, i) for i in range(6 if tier == "quick" else 60)])
+    hist.cases += SC.pmap(_alone_then_site_job, [(seed, i) for i in range(5 if tier == "quick" else 50)])
     # an unrelated site with more distinct recipes (170) than the compile cache holds (128), generated between two
     # generations of the same tree: ~5 s per case
     hist.cases += SC.gen_noise_history_cases(seed, 6 if tier == "quick" else 40)
